@@ -288,7 +288,7 @@ def correspondence(ctx, tools, nscripts, seeds):
     drv, exe = tools
     tot_calls = tot_uses = tot_t1 = 0; paths = set(); samples = []; hooks = False
     per_kind = {k: 0 for k in KINDS}; exc_other = 0; pred_evals = 0; pred_fail = []
-    all_scripts = []
+    all_scripts = []; impl_paths = set()
     for sd in seeds:
         scripts, rc = run_harness(exe, sd, nscripts, 'rand')
         if rc != 0 or not scripts:
@@ -297,6 +297,9 @@ def correspondence(ctx, tools, nscripts, seeds):
         for sc in scripts:
             if sc['initfail']: continue
             ncall = len([e for e in sc['ev'] if e['type'] == 'call'])
+            for e in sc['ev']:
+                if e['type'] == 'call':
+                    impl_paths.add((sc['name'], e['ret']['status'] if e['ret'] else 'THROW:' + str(e['throw']), e['ret']['interp'] if e['ret'] else 0))
             per_kind[sc['name']] += ncall
             exc_other += len([e for e in sc['ev'] if e['type'] == 'call' and e['throw'] == 'other'])
             # the property's predicates on the implementation's own returns
@@ -317,7 +320,7 @@ def correspondence(ctx, tools, nscripts, seeds):
         tot_t1 += n1
         if mm: ctx.broken.append(('correspondence:select_t1', mm))
     return dict(hooks=hooks, calls=tot_calls, uses=tot_uses, t1=tot_t1, paths=paths, samples=samples, per_kind=per_kind,
-                exc_other=exc_other, pred_evals=pred_evals, pred_fail=pred_fail, scripts=all_scripts)
+                exc_other=exc_other, pred_evals=pred_evals, pred_fail=pred_fail, scripts=all_scripts, impl_paths=impl_paths)
 
 CP_KNOWN = {'advanced_never_passes_sched_or_final': 'cpodes-advanced-passes-sched'}
 
@@ -341,12 +344,12 @@ def run(ctx):
     seeds = [ctx.seed] if ctx.tier == 'quick' else [ctx.seed + k for k in range(5)]
     res = correspondence(ctx, tools, nscripts, seeds)
     if res is not None:
-        ctx.add_cases(res['pred_evals'] + res['calls'], len(res['paths']) if res['hooks'] else None, res['samples'])
+        ctx.add_cases(res['pred_evals'] + res['calls'], len(res['impl_paths']), res['samples'] or ['%s %s interpolated=%d' % p for p in sorted(res['impl_paths'])[:6]])
         ctx.cov['rule'] = ('one evaluation = one stepTo call of a real integrator (9 integrators x random systems/options/request scripts, '
                            'all choices from the seed): the six C19 predicates are evaluated on its return, and (hooks present) the call is '
                            'replayed through the extracted model with the recorded takeOneStep outcomes as oracle, compared exactly. '
-                           'distinct_nontrivial = distinct (status, communication status, interpolated?, oracle answers used 0/1/n) '
-                           'combinations reached by replayed calls')
+                           'distinct_nontrivial = distinct (integrator, returned status or exception, interpolated?) combinations observed; '
+                           'paths_reached lists the (status, communication status, interpolated?, oracle answers used 0/1/n) combinations of replayed calls')
         ctx.extra['hooks_present'] = res['hooks']
         ctx.extra['replayed_calls'] = res['calls']
         ctx.extra['oracle_uses_checked_against_contract'] = res['uses']
